@@ -108,7 +108,9 @@ def leaf_mutations(v, rng):
         if isinstance(node, dict):
             for key in list(node.keys()):
                 walk(path + [key], node[key])
-                out.append((path + [key, "<removed>"], ("remove", path, key)))
+                if node[key] is not None:
+                    # dropping a member whose canonical value is null is not a deviation (null optional members may be omitted)
+                    out.append((path + [key, "<removed>"], ("remove", path, key)))
             if path and path[-1] in ("set", "stringset"):
                 out.append((path + ["<extra-element>"], ("set", path, dict(node, unexpected={}))))
         elif isinstance(node, list):
@@ -155,7 +157,7 @@ def leaf_mutations(v, rng):
 def c19(ck):
     rng = random.Random(ck.seed)
     quick = ck.tier == "quick"
-    ref = regenerate(["GrammarGen.v", "WireGen.v"])
+    ref = regenerate(["GrammarGen.v", "WireGen.v", "CertGen.v"])
     for n, msg in ref:
         ck.tie_broken.append("translator refused %s: %s" % (n, msg))
     ck.props("C19.v")
@@ -312,6 +314,78 @@ def c19(ck):
                     if nd <= 5:
                         ck.tie_broken.append("model/implementation disagree on a parameter mutant of %s %s: model=%s implementation %s" % (
                             STEPS[k], [str(x) for x in desc], v, "accepted" if success else "rejected"))
+        # 2b. histories: one client, a step called out of order in the middle of the sequence, then more calls. The
+        # whole history goes through the extracted state machine (Cert.cert_call) and an independent oracle:
+        # a success reply for step s is legitimate only if this client's previous call that was not answered with
+        # ClientIdError was step s-1 (Start = 0): a rejected out-of-order call must not move the client forward.
+        def classify(kk, rq, reps):
+            if rq.get("oneway") is True:
+                return "?"
+            if is_success(kk, reps):
+                return "S"
+            err = (reps[-1] or {}).get("error") if reps else None
+            return {"org.varlink.certification.ClientIdError": "I", "org.varlink.certification.CertificationError": "C",
+                    "org.varlink.service.InvalidParameter": "P"}.get(err, "E")
+        hist = []
+        for k in range(1, 13):
+            for j in range(1, 13):
+                if j == k:
+                    continue
+                if quick and not (abs(j - k) <= 1 or j == 12 or (k * 13 + j) % 5 == 0):
+                    continue
+                after = [min(j + 1, 12), k] + ([k + 1] if k < 12 else [])
+                hist.append((k, [j] + after))
+        hlines, hmeta = [], {}
+        for hn, (k, tail_steps) in enumerate(hist):
+            conn.close()
+            conn = Conn(path)
+            try:
+                reps = conn.call(canonical_request(0, None, None))
+                cid = reps[-1]["parameters"]["client_id"]
+                calls = []            # (step, request, canonical params, outcome)
+                for stp in list(range(1, k)) + tail_steps:
+                    rq = copy.deepcopy(canon[stp])
+                    rq["parameters"]["client_id"] = cid
+                    reps = conn.call(rq)
+                    calls.append((stp, rq, classify(stp, rq, reps)))
+                    if reps and reps[-1] is None and rq.get("oneway") is not True:
+                        break
+            except Exception as e:
+                ck.failures.append({"what": "certification server stopped answering during a history", "history": [k] + tail_steps, "error": repr(e)})
+                conn.close()
+                conn = Conn(path)
+                continue
+            ck.case("history|%d|%s" % (k, tail_steps))
+            ck.count("deviation=history")
+            # positions this client may have reached (a oneway call gives no reply, so both outcomes stay possible);
+            # the canonical order is Start(0), Test01..Test11, End(12), and End may be repeated
+            nxt = lambda p_: p_ + 1 if p_ < 12 else 12
+            possible = {0}
+            for stp, rq, oc in calls:
+                inorder = any(stp == nxt(p_) for p_ in possible)
+                if oc == "S" and not inorder:
+                    ck.failures.append({"what": "a step called out of order got that step's success reply (an earlier rejected call moved the client forward)",
+                                        "history": [(STEPS[a], c) for a, _, c in calls], "step": STEPS[stp]})
+                    break
+                if oc in ("S", "C"):
+                    possible = {stp}
+                elif oc == "?" and inorder:
+                    possible = possible | {stp}
+            hid = "h%d" % hn
+            hmeta[hid] = calls
+            hlines.append("%s cert_run %s %s | %s" % (hid, hx(idl), hx(cid), " ".join(
+                "%d %s %s %s" % (stp, STEPS[stp], hx(json.dumps(rq["parameters"])), hx(json.dumps(rq))) for stp, rq, _ in calls)))
+        if model_ok and hlines:
+            hr = run_lines(DRIVER, hlines, shards=8, timeout=600)
+            nd = 0
+            for hid, calls in hmeta.items():
+                got = "".join(c for _, _, c in calls)
+                want = hr.get(hid, "")
+                if len(want) != len(got) or any(g != "?" and g != w for g, w in zip(got, want)):
+                    nd += 1
+                    if nd <= 5:
+                        ck.tie_broken.append("certification state machine: model and implementation disagree on the history %s: implementation %s model %s" % (
+                            [STEPS[a] for a, _, _ in calls], got, want))
         # 3. concurrent canonical clients
         for nclients in ([1, 4, 16] if quick else [1, 2, 3, 4, 8, 16, 16, 16]):
             results = [None] * nclients
